@@ -2,6 +2,7 @@ package rules
 
 import (
 	"fmt"
+	"go/constant"
 	"go/types"
 	"os"
 	"sort"
@@ -485,17 +486,19 @@ func rulePool(c *Ctx, rule string) {
 				}
 				pap := an.AP(par)
 				set := map[string]bool{}
-				for _, in := range f.Blocks[0].Instrs {
+				// what an instruction clears: the fields of the parameter it zeroes, clears, or hands to a clearing callee
+				clearsOf := func(in ssa.Instruction) []string {
+					var out []string
 					if st, ok := in.(*ssa.Store); ok {
 						if fa, ok := st.Addr.(*ssa.FieldAddr); ok && an.AP(fa.X) == pap {
 							if k, isConst := st.Val.(*ssa.Const); isConst && isZeroConst(k) {
-								set[an.FieldName(fa.X.Type(), fa.Field)] = true
+								out = append(out, an.FieldName(fa.X.Type(), fa.Field))
 							}
 						}
 					}
 					if call, ok := builtinCall(in, "clear"); ok {
 						if ap := an.AP(call.Args[0]); strings.HasPrefix(ap, pap+".") {
-							set[strings.TrimPrefix(ap, pap+".")] = true
+							out = append(out, strings.TrimPrefix(ap, pap+"."))
 						}
 					}
 					if call, ok := in.(*ssa.Call); ok {
@@ -503,11 +506,56 @@ func rulePool(c *Ctx, rule string) {
 							for ai, arg := range an.CallArgs(&call.Call) {
 								if an.AP(arg) == pap {
 									for fld := range cleared[g][ai] {
-										set[fld] = true
+										out = append(out, fld)
 									}
 								}
 							}
 						}
+					}
+					return out
+				}
+				candidates := map[string]bool{}
+				an.AllInstrs(f, func(in ssa.Instruction) {
+					for _, fld := range clearsOf(in) {
+						candidates[fld] = true
+					}
+				})
+				for fld := range candidates {
+					fld := fld
+					// cleared on every path to a return; a path on which the field is known to be nil / empty already
+					// (if ctx.params != nil { clear(ctx.params) }) needs no clearing
+					path := (&an.Query{
+						Target: func(t ssa.Instruction) bool { _, isRet := t.(*ssa.Return); return isRet },
+						Block: func(t ssa.Instruction) bool {
+							for _, x := range clearsOf(t) {
+								if x == fld {
+									return true
+								}
+							}
+							return false
+						},
+						BlockEdge: func(b *ssa.BasicBlock, succ int) bool {
+							return edgeHas(b, succ, func(cond ssa.Value, truth bool) bool {
+								x, k, eq, ok := an.CondAtom(cond)
+								if !ok || eq != truth {
+									return false
+								}
+								if k.Value == nil {
+									return an.AP(x) == pap+"."+fld
+								}
+								if k.Value.Kind() == constant.Int && k.Int64() == 0 {
+									if lc, isCall := x.(*ssa.Call); isCall {
+										if cc, isLen := builtinCall(lc, "len"); isLen {
+											return an.AP(cc.Args[0]) == pap+"."+fld
+										}
+									}
+								}
+								return false
+							})
+						},
+					}).Search(an.Entry(f))
+					if path == nil {
+						set[fld] = true
 					}
 				}
 				if cleared[f] == nil {
